@@ -108,6 +108,11 @@ def run(ctx, config='rel-all'):
     ctx.floor('O1', len(n_sites), 9, 'finger store sites with an alignment obligation')
     check_constructors(ctx, config)
     check_sentinel(ctx, config)
+    # ---- R7 every reference / slice a public alloc* method returns derives from a reservation made in that call (the aligned
+    # pointer O2 speaks about), never from a shortcut that answers with a dangling address (`&mut []` is aligned for T, not for
+    # MIN_ALIGN): C02.R12 evaluated here
+    from . import c02
+    c02.returned_points_into_reservation(ctx, ctx.db(config), config, 'R7')
 
 
 def contains_bump_agg(t, depth=0):
